@@ -77,6 +77,11 @@ def _response_coefficient_worker(
 
     """
     old = model.get_parameter_values()[parameter]
+    old_variables = (
+        None
+        if y0 is None
+        else {k: v for k, v in model.get_raw_variables().items() if k in y0}
+    )
     if y0 is not None:
         model.update_variables(y0)
 
@@ -113,6 +118,10 @@ def _response_coefficient_worker(
         )
         conc_resp *= old / norm.variables.iloc[-1]
         flux_resp *= old / norm.fluxes.iloc[-1]
+
+    # Restore the initial values that were overridden above
+    if old_variables is not None:
+        model.update_variables(old_variables)
     return conc_resp, flux_resp
 
 
